@@ -467,3 +467,9 @@ def r3(cx):
              "replace-or-push", b.where(), "Transaction::write decision differs from the oracle: %s" % bad[:3])
     acts = {r[1] for r in rows}
     cx.check({"push", "replace", "insert_new"} <= acts, "all three actions occur in the table", "replace-or-push-actions", b.where())
+
+
+@rule("C08", "C08.R8", "read-your-writes through range cursors: an absolute seek re-positions the pending-write side absolutely")
+def r8(cx):
+    from .c09 import rule_ws_seek_absolute
+    rule_ws_seek_absolute(cx)
